@@ -316,7 +316,17 @@ func (c *Ctx) IteVal(cond *Term, a, b Value) Value {
 	panic("IteVal")
 }
 
-func (c *Ctx) PtrEq(a, b Ptr) *Term { return c.And(c.Eq(a.R, b.R), c.Eq(a.O, b.O)) }
+// PtrEq: pointer equality; comparison with the nil constant looks at the region only (a nil pointer is
+// region 0, whatever its offset word).
+func (c *Ctx) PtrEq(a, b Ptr) *Term {
+	if b.R.IsConst() && b.R.Val == 0 {
+		return c.Eq(a.R, b.R)
+	}
+	if a.R.IsConst() && a.R.Val == 0 {
+		return c.Eq(a.R, b.R)
+	}
+	return c.And(c.Eq(a.R, b.R), c.Eq(a.O, b.O))
+}
 func (c *Ctx) IsNil(p Ptr) *Term    { return c.Eq(p.R, c.Const(RgnW, 0)) }
 
 // EqVal builds structural equality for comparable values; strings compare via the uninterpreted
